@@ -1504,6 +1504,12 @@ package mq
 //@ func (*SubAck).UnmarshalBinary
 //@   ensures len(data) >= 2 ==> self.PacketID() == specU16(data[0], data[1])                #C03
 //@   ensures len(data) > 2 ==> $pstart_1 == 2                                               #C03
+//@   -- the payload: one reason code per remaining byte, in order (3.9.3 / 3.11.3)
+//@   ensures result == nil ==> len(self.ReasonCodes()) == len(data) - $pend_1                #C03
+//@   ensures result == nil ==> forall k in 0..len(self.ReasonCodes()): self.ReasonCodes()[k] == data[$pend_1+k]   #C03
+//@   loop 0:
+//@     invariant b.err == nil ==> b.i == $pend_1 + rangeindex + 1 && len(p.reasonCodes) == len(data) - $pend_1   #C03
+//@     invariant b.err == nil ==> forall k in 0..rangeindex+1: p.reasonCodes[k] == data[$pend_1+k]              #C03
 
 //@ func (*Unsubscribe).UnmarshalBinary
 //@   ensures len(data) >= 2 ==> self.PacketID() == specU16(data[0], data[1])                #C03
@@ -1512,6 +1518,12 @@ package mq
 //@ func (*UnsubAck).UnmarshalBinary
 //@   ensures len(data) >= 2 ==> self.PacketID() == specU16(data[0], data[1])                #C03
 //@   ensures len(data) > 2 ==> $pstart_1 == 2                                               #C03
+//@   -- the payload: one reason code per remaining byte, in order (3.9.3 / 3.11.3)
+//@   ensures result == nil ==> len(self.ReasonCodes()) == len(data) - $pend_1                #C03
+//@   ensures result == nil ==> forall k in 0..len(self.ReasonCodes()): self.ReasonCodes()[k] == data[$pend_1+k]   #C03
+//@   loop 0:
+//@     invariant b.err == nil ==> b.i == $pend_1 + rangeindex + 1 && len(p.reasonCodes) == len(data) - $pend_1   #C03
+//@     invariant b.err == nil ==> forall k in 0..rangeindex+1: p.reasonCodes[k] == data[$pend_1+k]              #C03
 
 //@ func (*Disconnect).UnmarshalBinary
 //@   ensures len(data) >= 1 ==> uint8(self.ReasonCode()) == data[0]                          #C03
